@@ -61,7 +61,8 @@ pub(crate) trait RowPrinter {
 
 impl<T: RowPrinter> AggregatePrinter for PrintAggregateAsRows<T> {
     fn print(&mut self, _row: &Aggregate, _display_config: &DisplayConfig) -> String {
-        "data will be output once the computation is complete...".to_string()
+        // a complete line: the renderer's redraw erases whole lines, counted by their newlines
+        "data will be output once the computation is complete...\n".to_string()
     }
 
     fn final_print(&mut self, row: &Aggregate, display_config: &DisplayConfig) -> String {
